@@ -2128,9 +2128,13 @@ func TestC17(t *testing.T) {
 	if pan, msg := safely(func() { c17DeliverPhase(r) }); pan {
 		r.Find(Finding{Sig: "C17:delivertx:harness-panic", What: "DeliverTx phase panicked: " + msg, Ops: []string{"# delivertx phase"}, Obs: "panic", Req: "-"})
 	}
+	// whole apps started from genesis documents with every account shape at the system-contract addresses
+	if pan, msg := safely(func() { c17GenesisPhase(r) }); pan {
+		r.Find(Finding{Sig: "C17:genesis:harness-panic", What: "genesis phase panicked: " + msg, Ops: []string{"# genesis phase"}, Obs: "panic", Req: "-"})
+	}
 	if ops := replayOps(t); ops != nil {
 		for _, op := range ops {
-			if strings.HasPrefix(op, "topics") || strings.HasPrefix(op, "init") || strings.HasPrefix(op, "#") {
+			if strings.HasPrefix(op, "topics") || strings.HasPrefix(op, "init") || strings.HasPrefix(op, "#") || strings.HasPrefix(op, "genesis") {
 				continue
 			}
 			one(op)
